@@ -61,15 +61,18 @@ func ruleL1(p *Prog) *RuleResult {
 			continue
 		}
 		found, exact := false, false
-		forEachBinOp(f, func(bo *ssa.BinOp) bool {
-			if c, ok := constIntVal(bo.Y); ok && (c == 65536 || c == 65535 || c == 65537) && (bo.Op == token.GTR || bo.Op == token.GEQ) && failsOn(f, bo, true) {
-				found = true
-				if (bo.Op == token.GTR && c == 65536) || (bo.Op == token.GEQ && c == 65537) {
-					exact = true
+		for _, g := range append([]*ssa.Function{f}, forwardedCheckers(f)...) {
+			g := g
+			forEachBinOp(g, func(bo *ssa.BinOp) bool {
+				if c, ok := constIntVal(bo.Y); ok && (c == 65536 || c == 65535 || c == 65537) && (bo.Op == token.GTR || bo.Op == token.GEQ) && failsOn(g, bo, true) {
+					found = true
+					if (bo.Op == token.GTR && c == 65536) || (bo.Op == token.GEQ && c == 65537) {
+						exact = true
+					}
 				}
-			}
-			return false
-		})
+				return false
+			})
+		}
 		switch {
 		case !found:
 			res.bad(fn+"|container count", p.pos(f.Pos()), "no test rejecting more than 65536 containers")
@@ -606,8 +609,10 @@ func ruleL2(p *Prog) *RuleResult {
 				} else {
 					return false, false
 				}
-				if ph, ok := other.(*ssa.Phi); ok && isRunFlagPhi(ph) {
-					return true, bo.Op == token.EQL
+				for _, ph := range phisThroughCall(other) {
+					if isRunFlagPhi(ph) {
+						return true, bo.Op == token.EQL
+					}
 				}
 				return false, false
 			},
@@ -619,8 +624,12 @@ func ruleL2(p *Prog) *RuleResult {
 					}
 					break
 				}
-				ph, ok := v.(*ssa.Phi)
-				return ok && isDecodedCountPhi(ph)
+				for _, ph := range phisThroughCall(v) {
+					if isDecodedCountPhi(ph) {
+						return true
+					}
+				}
+				return false
 			},
 			target: func(f *ssa.Function) []*ssa.BasicBlock {
 				var out []*ssa.BasicBlock
@@ -679,7 +688,16 @@ func ruleL2(p *Prog) *RuleResult {
 		}
 	}
 	// the run-flag bitmap of the reader is non-nil only under the run cookie
-	if f := p.Func("(*roaring.roaringArray).readFrom"); f != nil {
+	if f := funcOrCallee(p.Func("(*roaring.roaringArray).readFrom"), func(g *ssa.Function) bool {
+		for _, b := range g.Blocks {
+			for _, ins := range b.Instrs {
+				if ph, ok := ins.(*ssa.Phi); ok && isRunFlagPhi(ph) {
+					return true
+				}
+			}
+		}
+		return false
+	}); f != nil {
 		okTie := false
 		for _, b := range f.Blocks {
 			for _, ins := range b.Instrs {
@@ -1115,4 +1133,34 @@ func describeReaderSize(v ssa.Value) string {
 		}
 	}
 	return "?"
+}
+
+// phisThroughCall: v itself if it is a phi; for the k-th result of a static call to a function of the
+// repository, the phis among the k-th results of that function's returns (a decoding step moved into a
+// helper that hands back several values).
+func phisThroughCall(v ssa.Value) []*ssa.Phi {
+	if ph, ok := v.(*ssa.Phi); ok {
+		return []*ssa.Phi{ph}
+	}
+	ex, ok := v.(*ssa.Extract)
+	if !ok {
+		return nil
+	}
+	call, ok := ex.Tuple.(*ssa.Call)
+	if !ok {
+		return nil
+	}
+	g := call.Call.StaticCallee()
+	if g == nil || g.Blocks == nil {
+		return nil
+	}
+	var out []*ssa.Phi
+	for _, b := range g.Blocks {
+		if r, ok := b.Instrs[len(b.Instrs)-1].(*ssa.Return); ok && ex.Index < len(r.Results) {
+			if ph, ok := r.Results[ex.Index].(*ssa.Phi); ok {
+				out = append(out, ph)
+			}
+		}
+	}
+	return out
 }
